@@ -128,6 +128,8 @@ def x_token(x):
     if k == "scalar":
         return "XS"
     a = np.asarray(x["data"], float)
+    if a.ndim == 1:
+        return ("XV %d %s" % (a.shape[0], bits(a))).rstrip()
     if a.ndim != 2:
         return "XO %d" % a.ndim
     return ("XM %d %d %s" % (a.shape[0], a.shape[1], bits(a))).rstrip()
@@ -227,6 +229,25 @@ def case_timex(ctx, res, p):
         else:
             res.corr_fail("driver: " + rep[:100], p)
     # ---- property oracle (independent of the model)
+    if xa is not None and xa.ndim == 1:
+        # one value per cell: single-feature data when the time is given separately (then exactly the column form), refused
+        # without a time (the time column could not be told from a feature)
+        res.count("timex x=1-D time=" + ("none" if t["kind"] == "none" else "given"))
+        if t["kind"] == "none":
+            if out[0] == "ok" or not out[1].startswith("ValueError"):
+                res.oracle_fail("a 1-D x without a time argument is not refused with ValueError", p, signature="C13:timex:x-1d-no-time")
+        else:
+            try:
+                ref = ("ok", np.asarray(validate_time_x(xo[:, None] if hasattr(xo, "ndim") else np.asarray(xo)[:, None], to,
+                                                        n_features=nf, cast_scalar=cast)))
+            except Exception as e:
+                ref = ("err", err_kind(e), str(e)[:160])
+            same = (out[0] == ref[0]) and (out[1].tobytes() == ref[1].tobytes() if out[0] == "ok" else out[1] == ref[1])
+            if not same:
+                res.oracle_fail("a 1-D x with separate time points is not treated as its one-column form", p,
+                                detail={"x_1d": out[1] if out[0] != "ok" else "ok", "x_column": ref[1] if ref[0] != "ok" else "ok"},
+                                signature="C13:timex:x-1d-column-form")
+        return
     if xa is None or xa.ndim != 2:
         return
     n, c = xa.shape
